@@ -46,3 +46,21 @@ def f5c_stale_cache_after_replace(f) -> bool:
                 return False
             ok = True
     return ok
+
+
+def f22_dataframe_index_not_in_key(f) -> bool:
+    """to_hashable(DataFrame) ignores the index: DataFrames that differ only in their index get equal keys."""
+    v = (f.case or {}).get("violated", [])
+    return f.check == "key-iff-value" and bool(v) and all("{dataframes-differ-only-in-index}" in x for x in v)
+
+
+def f23_series_duplicate_index(f) -> bool:
+    """to_hashable(Series) goes through to_dict(): duplicate index labels collapse."""
+    v = (f.case or {}).get("violated", [])
+    return f.check == "key-iff-value" and bool(v) and all("{duplicate-index-series}" in x for x in v)
+
+
+def f22_f23_memoize(f) -> bool:
+    v = (f.case or {}).get("violated", [])
+    return f.check == "key-iff-value" and bool(v) and all(
+        x.startswith("memoize") and ("{duplicate-index-series}" in x or "{dataframes-differ-only-in-index}" in x) for x in v)
